@@ -422,11 +422,15 @@ func (h *H) Finish(testCode int) int {
 		"rule":                h.rule,
 		"samples":             h.samples,
 	}
-	if len(h.samples) == 0 {
-		cov["samples"] = []any{}
-	}
 	for k, v := range h.counters {
 		cov[k] = v
+	}
+	if len(h.samples) == 0 {
+		cov["samples"] = []any{}
+		if h.evals > 0 {
+			// only layers that record counters ran (VERIF_LAYERS): their totals are the sample
+			cov["samples"] = []any{map[string]any{"note": "the layers that ran record counters only", "counters": h.counters}}
+		}
 	}
 	for k, m := range h.sets {
 		cov["distinct_"+k] = len(m)
